@@ -14,7 +14,8 @@ from strawberryfields.compilers import compiler_db
 
 PROP = "C02"
 LEVEL = "proof"
-COQ_TARGETS = ["C02/Alg.vo", "C02/Model.vo", "C02/Float.vo", "C02/Proofs.vo", "C02/ProofsDrv.vo", "C02/Mesh.vo"]
+COQ_TARGETS = ["C02/Alg.vo", "C02/Model.vo", "C02/Float.vo", "C02/Proofs.vo", "C02/ProofsSeq.vo", "C02/ProofsGate.vo",
+               "C02/ProofsDrv.vo", "C02/ProofsRefute.vo", "C02/Mesh.vo", "C02/Inst.vo"]
 COQ_DIRS = ["C02"]
 PROPERTIES_FILE = "Properties/C02.v"
 ALLOWED_AXIOMS = set()
@@ -40,7 +41,7 @@ TRUSTED_BASE = [
 ASSUMPTIONS = ["hbar = 2 (sf.hbar default) in all runs", "Fock-backend comparisons use small amplitudes/squeezing so that truncation error < 1e-4"]
 MANIFEST_TEXT = "see report"
 
-TOL = 1e-8       # closed-form gate identities through the gaussian simulator
+TOL = 2e-7       # closed-form gate identities through the gaussian simulator (Pgate's acosh(sqrt(1+t^2)) loses ~1e-8 for tiny t)
 TOL_MAT = 1e-6   # numerical matrix decompositions
 TOL_FOCK = 2e-4  # truncated Fock simulator
 
@@ -140,8 +141,9 @@ def impl_sig(cmds, frame):
         nm = c.op.__class__.__name__
         regs = c.reg if isinstance(c.reg, (list, tuple)) else [c.reg]
         wires = [frame.index(r.ind if hasattr(r, "ind") else r) for r in regs]
-        ps = [float(x) for x in c.op.p] if nm in PKINDS else []
-        sig.append((KIND_ID.get(nm, 109), wires, bool(getattr(c.op, "dagger", False)), trig_params(nm, ps) if nm in PKINDS else []))
+        modelled = nm in PKINDS and KIND_ID.get(nm, 109) < 100
+        ps = [float(x) for x in c.op.p] if modelled else []
+        sig.append((KIND_ID.get(nm, 109), wires, bool(getattr(c.op, "dagger", False)), trig_params(nm, ps) if modelled else []))
     return sig
 
 
@@ -241,3 +243,834 @@ def draw_params(rng, name):
 
 def draw_targets(rng, n, k):
     return rng.sample(range(n), k)
+
+
+# ========================================================================================
+# correspondence A: every _decompose / Gate.decompose against the model
+def _gate_case(rng):
+    name = rng.choice(DECOMPOSABLE + DECOMPOSABLE + PRIMS)
+    params = draw_params(rng, name)
+    dag = rng.random() < 0.45
+    k = NMODES[name]
+    u = rng.random()
+    if u < 0.15:
+        n, targets = 11, rng.sample([9, 10, 3, 0], k)          # indices >= 9
+    elif u < 0.3:
+        n, targets = k, list(range(k))                          # plain (0[,1])
+    else:
+        n = rng.randint(max(k, 2), 4)
+        targets = draw_targets(rng, n, k)
+    return {"gate": name, "params": params, "dag": dag, "n": n, "targets": targets}
+
+
+def _impl_decompose(case):
+    prog = sf.Program(case["n"])
+    op = make_op(case["gate"], case["params"], case["dag"])
+    regs = [prog.register[t] for t in case["targets"]]
+    try:
+        seq = op.decompose(regs)
+    except NotImplementedError:
+        return (1, [])
+    return (0, impl_sig(seq, case["targets"]))
+
+
+def _gate_predicate(case, doc20):
+    """Property predicate on the implementation: executing the (decomposed) op on the Gaussian simulator acts as the
+    documented transformation on the targets and as the identity elsewhere.  Returns max abs deviation."""
+    A, dv = split20(doc20)
+    n, targets = case["n"], case["targets"]
+    S, d = run_cmds_gaussian(n, [[case["gate"], case["params"], targets, case["dag"]]])
+    Se, de = embed(n, targets, A, dv)
+    return float(max(np.abs(S - Se).max(), np.abs(d - de).max()))
+
+
+def _nontrivial_gate(case, ncmds):
+    return ncmds >= 2 and (case["dag"] or case["targets"] != list(range(len(case["targets"]))))
+
+
+def corr_gates(ctx, cases):
+    lines = [HEADER, "Definition cases : list fcmd := ["]
+    items = []
+    for c in cases:
+        k = NMODES[c["gate"]]
+        items.append(c_cmd(c["gate"], c["params"], list(range(k)), c["dag"]))
+    lines.append(";\n".join(items) + "].")
+    lines.append("Eval vm_compute in map (fun c => (opt_sig (decompose_cmd F (Kops:=FO S2H IS2H RT) c), run_doc S2H IS2H RT c, "
+                 "match decompose_cmd F (Kops:=FO S2H IS2H RT) c with Some l => run_docs S2H IS2H RT l | None => [] end, "
+                 "residuals S2H IS2H RT (cg F c))) cases.")
+    ok, vals, raw = ctx.coq_eval("cases_gates", "\n".join(lines))
+    if not ok:
+        ctx.obligation("correspondence:gates:coq", False, raw)
+        return
+    ctx.obligation("correspondence:gates:coq", True)
+    # Coq prints left-nested pairs flat: ((k, l), doc, dec, res) arrives as (k, l, doc, dec, res)
+    for c, (mk, ml, doc20, dec20, res) in zip(cases, vals[0]):
+        isig = _impl_decompose(c)
+        msig = (mk, ml)
+        ms = [_flatten_sig(s) for s in ml]
+        ctx.traces += 1
+        ncmds = len(isig[1])
+        ctx.case({"check": "gate", **c}, nontrivial=_nontrivial_gate(c, ncmds),
+                 bucket="gate:%s%s" % (c["gate"], ".H" if c["dag"] else ""))
+        data = {"check": "gate", "case": c}
+        problems = []
+        if isig[0] != msig[0]:
+            problems.append("decomposable: impl %s model %s" % (isig[0] == 0, msig[0] == 0))
+        else:
+            diff = sig_equal(isig[1], ms)
+            if diff:
+                problems.append("emitted command list differs: " + diff)
+        worst = max([abs(float(x)) for x in res] + [0.0])
+        if worst > TOL:
+            problems.append("derived parameters violate the hypothesis relations (residual %.2e)" % worst)
+        if dec20:
+            A1, d1 = split20(doc20)
+            A2, d2 = split20(dec20)
+            dev = max(np.abs(A1 - A2).max(), np.abs(d1 - d2).max())
+            if dev > TOL:
+                problems.append("model: decomposition differs from documented transformation by %.2e at this input" % dev)
+        dev_impl = _gate_predicate(c, doc20)
+        tag = c["gate"] + ("-dagger" if c["dag"] else "")
+        if dev_impl > TOL:
+            ctx.counterexample("decomp:" + tag, "%s%s on modes %s: the executed decomposition deviates from the documented "
+                               "transformation by %.2e" % (c["gate"], ".H" if c["dag"] else "", c["targets"], dev_impl), data)
+        elif problems:
+            ctx.disagreement("corr:decomp:" + tag, "; ".join(problems), data)
+
+
+def _flatten_sig(s):
+    """((((kind, wires), dag), params)) as parsed from Coq's left-nested tuple printing -> (kind, wires, dag, params)."""
+    if isinstance(s, tuple) and len(s) == 4:
+        return (s[0], list(s[1]), s[2], [float(x) for x in s[3]])
+    raise ValueError("unexpected signature shape %r" % (s,))
+
+
+# ========================================================================================
+# correspondence B: Compiler.decompose against the model's compile
+COMPILERS = ["gaussian", "bosonic", "fock"]
+OPAQUE = ["Kgate", "Vgate", "CKgate"]
+
+
+def _prog_case(rng):
+    ncmd = rng.randint(1, 5)
+    u = rng.random()
+    if u < 0.2:
+        n, pair = 11, rng.sample([9, 10, 2, 0], 2)
+    elif u < 0.4:
+        n, pair = 2, [0, 1]
+    else:
+        n = rng.randint(2, 4)
+        pair = rng.sample(range(n), 2)
+    cmds = []
+    for _ in range(ncmd):
+        pool = DECOMPOSABLE + PRIMS + (OPAQUE if rng.random() < 0.15 else [])
+        name = rng.choice(pool)
+        k = NMODES[name]
+        w = rng.sample([0, 1], k)
+        cmds.append([name, draw_params(rng, name), w, bool(rng.random() < 0.35)])
+    return {"n": n, "pair": pair, "cmds": cmds, "compiler": rng.choice(COMPILERS)}
+
+
+def _build(case):
+    prog = sf.Program(case["n"])
+    with prog.context as q:
+        for name, params, w, dag in case["cmds"]:
+            make_op(name, params, dag) | tuple(q[case["pair"][i]] for i in w)
+    return prog
+
+
+def _impl_compile(case):
+    prog = _build(case)
+    comp = compiler_db[case["compiler"]]()
+    try:
+        out = comp.decompose(prog.circuit)
+    except CircuitError:
+        return (1, [])
+    except NotImplementedError:
+        return (2, [])
+    return (0, impl_sig(out, case["pair"]))
+
+
+def check_tables(ctx):
+    names = [k for k, v in sorted(KIND_ID.items(), key=lambda kv: kv[1])]
+    text = HEADER + ("Definition kinds := [kD; kX; kZ; kS; kR; kP; kBS; kMZ; ksMZ; kS2; kCX; kCZ; kF; kO 0; kO 1; kO 2; kO 3].\n"
+                     "Eval vm_compute in map (fun tb => map (fun k => (t_prim tb k, t_dec tb k)) kinds) [tb_gaussian; tb_bosonic; tb_fock].\n")
+    ok, vals, raw = ctx.coq_eval("tables", text)
+    if not ok:
+        ctx.obligation("correspondence:tables", False, raw)
+        return
+    bad = []
+    for cname, row in zip(COMPILERS, vals[0]):
+        cls = compiler_db[cname]
+        for nm, (mp, md) in zip(names, row):
+            ip, idc = nm in cls.primitives, nm in cls.decompositions
+            if (bool(mp), bool(md)) != (ip, idc):
+                bad.append("%s.%s: model (prim %s, dec %s) vs class (prim %s, dec %s)" % (cname, nm, mp, md, ip, idc))
+    ctx.obligation("correspondence:tables", not bad, "\n".join(bad))
+
+
+def corr_compile(ctx, cases):
+    lines = [HEADER, "Definition TB (i : nat) := match i with 0 => tb_gaussian | 1 => tb_bosonic | _ => tb_fock end.",
+             "Definition cases : list (nat * list fcmd) := ["]
+    items = []
+    for c in cases:
+        items.append("(%d, %s)" % (COMPILERS.index(c["compiler"]),
+                                   coq.coq_list([c_cmd(*x) for x in c["cmds"]])))
+    lines.append(";\n".join(items) + "].")
+    lines.append("Eval vm_compute in map (fun c => let r := compile F (Kops:=FO S2H IS2H RT) 4 (TB (fst c)) (snd c) in "
+                 "(res_sig r, run_docs S2H IS2H RT (snd c), match r with Ok _ l => run_apply S2H IS2H RT l | _ => [] end)) cases.")
+    ok, vals, raw = ctx.coq_eval("cases_compile", "\n".join(lines))
+    if not ok:
+        ctx.obligation("correspondence:compile:coq", False, raw)
+        return
+    ctx.obligation("correspondence:compile:coq", True)
+    for c, (mk, ml, docs20, app20) in zip(cases, vals[0]):
+        isig = _impl_compile(c)
+        msig = (mk, ml)
+        ms = [_flatten_sig(s) for s in ml]
+        ctx.traces += 1
+        has_dag = any(x[3] for x in c["cmds"])
+        ctx.case({"check": "compile", **c}, nontrivial=(len(isig[1]) >= 2 and (has_dag or c["pair"] != [0, 1])),
+                 bucket="compile:%s:%s" % (c["compiler"], ["ok", "CircuitError", "NotImplementedError", "fuel"][isig[0]]))
+        data = {"check": "compile", "case": c}
+        problems = []
+        if isig[0] != msig[0]:
+            problems.append("result kind: impl %s vs model %s" % (isig[0], msig[0]))
+        elif isig[0] == 0:
+            diff = sig_equal(isig[1], ms)
+            if diff:
+                problems.append("compiled command list differs: " + diff)
+        gaussian_only = all(x[0] not in OPAQUE for x in c["cmds"])
+        dev_doc = None
+        if gaussian_only and isig[0] == 0:
+            # the implementation's behaviour on a simulator that decomposes everything down to D/S/R/BS
+            S, d = run_cmds_gaussian(c["n"], [[nm, ps, [c["pair"][i] for i in w], dg] for nm, ps, w, dg in c["cmds"]])
+            A, dv = split20(docs20)
+            Se, de = embed(c["n"], c["pair"], A, dv)
+            dev_doc = float(max(np.abs(S - Se).max(), np.abs(d - de).max()))
+            scale = max(1.0, float(np.abs(Se).max()))
+            if dev_doc > TOL * scale:
+                ctx.counterexample("compile:gaussian-vs-documented",
+                                   "program %s on modes %s: Gaussian-simulator result deviates from the documented transformation by %.2e"
+                                   % (c["cmds"], c["pair"], dev_doc), data)
+                continue
+            if c["compiler"] != "fock" and app20:
+                A2, d2 = split20(app20)
+                dev = max(np.abs(A - A2).max(), np.abs(dv - d2).max())
+                if dev > TOL * scale:
+                    problems.append("model: Gate.apply semantics of the compiled list deviates from documented by %.2e" % dev)
+        if problems:
+            ctx.disagreement("corr:compile:" + c["compiler"], "; ".join(problems), data)
+
+
+def correspondence(ctx):
+    rng = ctx.rng
+    check_tables(ctx)
+    n1 = ctx.budget(120, 1500)
+    corr_gates(ctx, [_gate_case(rng) for _ in range(n1)])
+    n2 = ctx.budget(90, 1200)
+    corr_compile(ctx, [_prog_case(rng) for _ in range(n2)])
+
+
+# ========================================================================================
+# search: the property's own predicate on the implementation
+def _haar(rng, n):
+    z = np.array([[complex(rng.gauss(0, 1), rng.gauss(0, 1)) for _ in range(n)] for _ in range(n)])
+    q, r = np.linalg.qr(z)
+    dgl = np.diag(r) / np.abs(np.diag(r))
+    return q * dgl
+
+
+def unitary_of_class(rng, cls, n):
+    if cls == "haar":
+        return _haar(rng, n)
+    if cls == "identity":
+        return np.identity(n, dtype=complex)
+    if cls == "permutation":
+        p = list(range(n))
+        rng.shuffle(p)
+        return np.identity(n, dtype=complex)[p]
+    if cls == "signed-permutation":
+        p = list(range(n))
+        rng.shuffle(p)
+        ph = [rng.choice([1, -1, 1j, -1j]) for _ in range(n)]
+        return np.diag(ph) @ np.identity(n, dtype=complex)[p]
+    if cls == "diagonal":
+        return np.diag([np.exp(1j * rng.choice(ANGLE_POOL)) for _ in range(n)])
+    if cls == "block":
+        k = rng.randint(1, n - 1) if n > 1 else 1
+        U = np.identity(n, dtype=complex)
+        U[:k, :k] = _haar(rng, k)
+        if n - k > 0:
+            U[k:, k:] = _haar(rng, n - k)
+        return U
+    if cls == "zeros":
+        # exact zeros: a Haar block embedded among swapped identity rows
+        U = unitary_of_class(rng, "block", n)
+        p = list(range(n))
+        rng.shuffle(p)
+        return U[p]
+    if cls == "real-orthogonal":
+        q, _ = np.linalg.qr(np.array([[rng.gauss(0, 1) for _ in range(n)] for _ in range(n)]))
+        return q.astype(complex)
+    raise ValueError(cls)
+
+
+MESHES = ["rectangular", "rectangular_phase_end", "rectangular_symmetric", "triangular", "rectangular_compact",
+          "triangular_compact", "sun_compact"]
+UCLASSES = ["haar", "identity", "permutation", "signed-permutation", "diagonal", "block", "zeros", "real-orthogonal"]
+
+
+def mat_json(M):
+    M = np.array(M)
+    return {"re": np.real(M).tolist(), "im": np.imag(M).tolist()}
+
+
+def mat_of(j):
+    return np.array(j["re"]) + 1j * np.array(j["im"])
+
+
+def passive_action(n, build):
+    """complex n x n matrix W with alpha_out = W alpha_in (+ c) for a passive circuit, from the affine map"""
+    S, d = affine_of(n, build)
+    X, Y = S[:n, :n], S[n:, :n]
+    return X + 1j * Y, S, d
+
+
+def check_interferometer(data):
+    U = mat_of(data["U"])
+    n, targets, mesh = data["n"], data["targets"], data["mesh"]
+    kw = {}
+    if "drop_identity" in data:
+        kw["drop_identity"] = data["drop_identity"]
+
+    def build(q):
+        ops.Interferometer(U, mesh=mesh, **kw) | tuple(q[t] for t in targets)
+    W, S, d = passive_action(n, build)
+    We = np.identity(n, dtype=complex)
+    for i, a in enumerate(targets):
+        for j, b in enumerate(targets):
+            We[a, b] = U[i, j]
+    Se = np.block([[We.real, -We.imag], [We.imag, We.real]])
+    return float(max(np.abs(S - Se).max(), np.abs(d).max()))
+
+
+def search_interferometers(ctx, count):
+    rng = ctx.rng
+    for _ in range(count):
+        mesh = rng.choice(MESHES)
+        cls = rng.choice(UCLASSES)
+        m = rng.randint(3 if mesh == "sun_compact" else 2, 5)
+        u = rng.random()
+        if u < 0.4:
+            n, targets = m, list(range(m))
+        else:
+            n = m + rng.randint(0, 2)
+            targets = rng.sample(range(n), m)
+        U = unitary_of_class(rng, cls, m)
+        data = {"check": "interferometer", "mesh": mesh, "class": cls, "n": n, "targets": targets, "U": mat_json(U)}
+        if mesh in MESHES[:4] and rng.random() < 0.3:
+            data["drop_identity"] = False
+        ctx.case({k: v for k, v in data.items() if k != "U"},
+                 nontrivial=(cls != "haar" or mesh != "rectangular" or targets != list(range(m))),
+                 bucket="interferometer:%s:%s" % (mesh, cls))
+        try:
+            dev = check_interferometer(data)
+        except Exception as e:  # a decomposition that raises on a valid unitary
+            ctx.counterexample("mesh:%s:raises:%s" % (mesh, type(e).__name__),
+                               "Interferometer(mesh=%s) on a %s unitary raised %r" % (mesh, cls, e), data)
+            continue
+        if dev > TOL_MAT:
+            sig = "mesh:triangular-factor-order" if mesh == "triangular" else "mesh:%s:%s" % (mesh, cls)
+            ctx.counterexample(sig, "Interferometer(mesh=%s) on a %s %dx%d unitary, modes %s: applied transformation deviates from U by %.2e"
+                               % (mesh, cls, m, m, targets, dev), data)
+
+
+# ---- natively applied gates vs their decomposition (Fock applies MZgate / S2gate natively) ----
+def check_native(data):
+    name, params, targets, dag, n = data["gate"], data["params"], data["targets"], data["dag"], data["n"]
+
+    def build(q):
+        make_op(name, params, dag) | tuple(q[t] for t in targets)
+    Sg, dg = affine_of(n, build, amp=0.3)
+    Sf, df = affine_of(n, build, backend="fock", amp=0.3, cutoff_dim=data.get("cutoff", 14))
+    return float(max(np.abs(Sg - Sf).max(), np.abs(dg - df).max()))
+
+
+def search_native(ctx, count):
+    rng = ctx.rng
+    for i in range(count):
+        name = "MZgate" if rng.random() < 0.6 else "S2gate"
+        if name == "MZgate":
+            p0 = rng.choice([0.0, 0.0, PI, 0.4, -1.1, 2.0, PI / 2])
+            params = [p0, rng.choice([0.0, 0.7, -2.0, PI / 2, 1.3])]
+        else:
+            params = [rng.choice([0.0, 0.15, -0.2, 0.1]), rng.choice(ANGLE_POOL)]
+        dag = rng.random() < 0.5
+        n = rng.choice([2, 2, 3])
+        targets = draw_targets(rng, n, 2)
+        data = {"check": "native", "gate": name, "params": params, "dag": dag, "n": n, "targets": targets, "cutoff": 14 if n == 2 else 9}
+        ctx.case(data, nontrivial=(dag or params[0] == 0 or targets != [0, 1]), bucket="native:%s%s" % (name, ".H" if dag else ""))
+        dev = check_native(data)
+        if dev > TOL_FOCK:
+            if name == "MZgate" and params[0] == 0:
+                sig = "apply:MZgate-p0-zero-skipped"
+            elif name == "MZgate" and dag:
+                sig = "apply:MZgate-dagger-negates-phi_in"
+            else:
+                sig = "native-vs-decomposed:%s%s" % (name, "-dagger" if dag else "")
+            ctx.counterexample(sig, "%s(%s)%s on modes %s: Fock backend (applies natively) and Gaussian backend (decomposes) differ by %.2e"
+                               % (name, params, ".H" if dag else "", targets, dev), data)
+
+
+class _Recorder:
+    """Stands in for a backend: records what Gate.apply hands to gaussian_gate."""
+
+    def __init__(self):
+        self.calls = []
+
+    def gaussian_gate(self, S, d, *modes):
+        self.calls.append((np.array(S, dtype=float), np.array(d, dtype=float), modes))
+
+
+def _random_symplectic(rng, n, passive=False):
+    U = _haar(rng, n)
+    O1 = np.block([[U.real, -U.imag], [U.imag, U.real]])
+    if passive:
+        return O1
+    V = _haar(rng, n)
+    O2 = np.block([[V.real, -V.imag], [V.imag, V.real]])
+    r = np.array([rng.choice([0.0, 0.3, -0.4, 0.6]) if rng.random() < 0.5 else rng.uniform(-0.6, 0.6) for _ in range(n)])
+    Z = np.diag(np.concatenate([np.exp(-r), np.exp(r)]))
+    return O1 @ Z @ O2
+
+
+def check_ggate(data):
+    S = np.array(data["S"])
+    d = np.array(data["d"])
+    n = len(d) // 2
+    prog = sf.Program(n)
+    rec = _Recorder()
+    op = ops.Ggate(S, d)
+    if data["dag"]:
+        op = op.H
+    op.apply(list(prog.register), rec)
+    if not rec.calls:
+        return 1.0 if not np.allclose(S, np.identity(2 * n)) else 0.0
+    S1, d1, _ = rec.calls[0]
+    if data["dag"]:
+        # the inverse of r -> S r + d is r -> S^-1 r - S^-1 d
+        return float(max(np.abs(S1 @ S - np.identity(2 * n)).max(), np.abs(S1 @ d + d1).max()))
+    return float(max(np.abs(S1 - S).max(), np.abs(d1 - d).max()))
+
+
+def search_ggate(ctx, count):
+    rng = ctx.rng
+    for _ in range(count):
+        n = rng.randint(1, 3)
+        S = _random_symplectic(rng, n, passive=rng.random() < 0.3)
+        d = np.array([rng.choice([0.0, 0.5, -0.3]) for _ in range(2 * n)])
+        data = {"check": "ggate", "S": S.tolist(), "d": d.tolist(), "dag": bool(rng.random() < 0.6)}
+        ctx.case({"check": "ggate", "n": n, "dag": data["dag"]}, nontrivial=data["dag"], bucket="ggate" + (".H" if data["dag"] else ""))
+        dev = check_ggate(data)
+        if dev > TOL:
+            sig = "apply:Ggate-dagger-negates-S" if data["dag"] else "apply:Ggate"
+            ctx.counterexample(sig, "Ggate(S, d)%s: Gate.apply hands the backend a transformation that deviates from the %s by %.2e"
+                               % (".H" if data["dag"] else "", "inverse" if data["dag"] else "gate", dev), data)
+
+
+# ---- Gaussian transforms and Gaussian state preparations ----
+def check_gtransform(data):
+    S = np.array(data["S"])
+    n = len(S) // 2
+    targets = data["targets"]
+    N = data["n"]
+
+    if data.get("vacuum"):
+        prog = sf.Program(N)
+        with prog.context as q:
+            ops.GaussianTransform(S, vacuum=True) | tuple(q[t] for t in targets)
+        st = sf.Engine("gaussian").run(prog).state
+        idx = list(targets) + [N + t for t in targets]
+        cov = st.cov()[np.ix_(idx, idx)]
+        return float(np.abs(cov - (sf.hbar / 2) * S @ S.T).max())
+
+    def build(q):
+        ops.GaussianTransform(S) | tuple(q[t] for t in targets)
+    Sg, dg = affine_of(N, build)
+    Se = np.identity(2 * N)
+    idx = list(targets) + [N + t for t in targets]
+    for a, ga in enumerate(idx):
+        for b, gb in enumerate(idx):
+            Se[ga, gb] = S[a, b]
+    return float(max(np.abs(Sg - Se).max(), np.abs(dg).max()))
+
+
+def search_gtransform(ctx, count):
+    rng = ctx.rng
+    for _ in range(count):
+        n = rng.randint(1, 3)
+        cls = rng.choice(["active", "passive", "identity", "squeeze-only", "active"])
+        if cls == "identity":
+            S = np.identity(2 * n)
+        elif cls == "squeeze-only":
+            r = np.array([rng.choice([0.0, 0.4, -0.5]) for _ in range(n)])
+            S = np.diag(np.concatenate([np.exp(-r), np.exp(r)]))
+        else:
+            S = _random_symplectic(rng, n, passive=(cls == "passive"))
+        N = n + rng.randint(0, 2)
+        targets = rng.sample(range(N), n)
+        data = {"check": "gtransform", "class": cls, "S": S.tolist(), "n": N, "targets": targets, "vacuum": bool(rng.random() < 0.3)}
+        ctx.case({k: v for k, v in data.items() if k != "S"}, nontrivial=(cls != "active" or targets != list(range(n)) or data["vacuum"]),
+                 bucket="gtransform:" + cls)
+        try:
+            dev = check_gtransform(data)
+        except Exception as e:
+            ctx.counterexample("gaussian-transform:raises:%s" % type(e).__name__, "GaussianTransform on a %s symplectic raised %r" % (cls, e), data)
+            continue
+        if dev > TOL_MAT * max(1.0, float(np.abs(S).max()) ** 2):
+            ctx.counterexample("gaussian-transform:" + cls + (":vacuum" if data["vacuum"] else ""),
+                               "GaussianTransform(%s S%s) on modes %s deviates from S by %.2e" % (cls, ", vacuum=True" if data["vacuum"] else "", targets, dev), data)
+
+
+def _sq_block(r, phi):
+    R = np.array([[np.cos(phi / 2), -np.sin(phi / 2)], [np.sin(phi / 2), np.cos(phi / 2)]])
+    return R @ np.diag([np.exp(-2 * r), np.exp(2 * r)]) @ R.T
+
+
+def _xpxp_to_xxpp(V):
+    n = len(V) // 2
+    idx = list(range(0, 2 * n, 2)) + list(range(1, 2 * n, 2))
+    return V[np.ix_(idx, idx)]
+
+
+def gaussian_state_of_class(rng, cls, n):
+    """covariance (hbar = 2 units, xxpp) of a state of the given class"""
+    from scipy.linalg import block_diag
+    if cls == "diag-pure":
+        r = [rng.choice([0.0, 0.4, -0.4, 0.7, -0.2]) for _ in range(n)]
+        return np.diag(np.concatenate([np.exp(-2 * np.array(r)), np.exp(2 * np.array(r))]))
+    if cls == "blockdiag-pure":
+        blocks = [_sq_block(rng.choice([0.0, 0.3, 0.6]), rng.choice([0.3, 1.2, 2.0, 3.0, -2.0, PI / 2, -PI / 2, PI, -0.4, 4.0]))
+                  for _ in range(n)]
+        return _xpxp_to_xxpp(block_diag(*blocks))
+    if cls == "thermal":
+        nb = [rng.choice([0.0, 0.5, 1.0, 0.25]) for _ in range(n)]
+        return np.diag(np.concatenate([2 * np.array(nb) + 1, 2 * np.array(nb) + 1]))
+    if cls == "mixed-diag":
+        a = [rng.choice([1.5, 2.0, 3.0]) for _ in range(n)]
+        b = [rng.choice([1.5, 2.5, 1.0]) for _ in range(n)]
+        return np.diag(np.array(a + b, dtype=float))
+    S = _random_symplectic(rng, n)
+    if cls == "random-pure":
+        return S @ S.T
+    nb = np.array([rng.choice([0.0, 0.3, 1.0]) for _ in range(n)])
+    D = np.diag(np.concatenate([2 * nb + 1, 2 * nb + 1]))
+    return S @ D @ S.T
+
+
+def check_gaussian_prep(data):
+    V = np.array(data["V"]) * (sf.hbar / 2)
+    r = np.array(data["r"])
+    n = len(r) // 2
+    N, targets = data["n"], data["targets"]
+    out = []
+    for dec_flag in (True, False):
+        prog = sf.Program(N)
+        with prog.context as q:
+            for i in range(N):     # something to be demolished by the preparation
+                ops.Sgate(0.3, 0.1 * i) | q[i]
+            ops.Gaussian(V, r, decomp=dec_flag) | tuple(q[t] for t in targets)
+        st = sf.Engine("gaussian").run(prog).state
+        idx = list(targets) + [N + t for t in targets]
+        out.append((np.array(st.means())[idx], np.array(st.cov())[np.ix_(idx, idx)]))
+    (m1, c1), (m2, c2) = out
+    dev_native = float(max(np.abs(m1 - m2).max(), np.abs(c1 - c2).max()))
+    dev_doc = float(max(np.abs(m1 - r).max(), np.abs(c1 - V).max()))
+    return max(dev_native, dev_doc)
+
+
+def _prep_signature(cls, V):
+    """Name the branch of Gaussian._decompose the state falls into (decided on V itself, not on how it was generated)."""
+    V = np.array(V)
+    n = len(V) // 2
+    pure = abs(np.linalg.det(V) - 1.0) < 1e-6
+    is_diag = bool(np.all(V == np.diag(np.diag(V))))
+    xx, pp = np.diag(V)[:n], np.diag(V)[n:]
+    xp = np.array([V[i, n + i] for i in range(n)])
+    W = V.copy()
+    for i in range(n):
+        W[i, i] = W[n + i, n + i] = W[i, n + i] = W[n + i, i] = 0
+    is_block = (not is_diag) and bool(np.all(W == 0))
+    if pure and is_diag and np.any(xx > 1 + 1e-12):
+        return "gaussian-prep:diag-pure-antisqueezed-x"
+    if pure and is_block:
+        # rotated squeezed blocks whose squeezing angle has cos(phi) <= 0  <=>  V_xx >= V_pp (or V_xx == V_pp with V_xp < 0)
+        if np.any((xx > pp + 1e-12) | ((np.abs(xx - pp) <= 1e-12) & (xp < 0))):
+            return "gaussian-prep:blockdiag-pure-angle-branch"
+    return "gaussian-prep:" + cls
+
+
+def search_gaussian_prep(ctx, count):
+    rng = ctx.rng
+    classes = ["diag-pure", "blockdiag-pure", "thermal", "mixed-diag", "random-pure", "random-mixed"]
+    for _ in range(count):
+        cls = rng.choice(classes)
+        n = rng.randint(1, 3)
+        V = gaussian_state_of_class(rng, cls, n)
+        r = np.array([rng.choice([0.0, 0.0, 0.5, -0.3, 1.0]) for _ in range(2 * n)])
+        N = n + rng.randint(0, 1)
+        targets = rng.sample(range(N), n)
+        data = {"check": "gaussian-prep", "class": cls, "V": V.tolist(), "r": r.tolist(), "n": N, "targets": targets}
+        ctx.case({k: v for k, v in data.items() if k != "V"}, nontrivial=(cls not in ("random-pure", "random-mixed") or targets != list(range(n))),
+                 bucket="gaussian-prep:" + cls)
+        try:
+            dev = check_gaussian_prep(data)
+        except Exception as e:
+            ctx.counterexample("gaussian-prep:raises:%s:%s" % (cls, type(e).__name__), "Gaussian(V, r) for a %s state raised %r" % (cls, e), data)
+            continue
+        if dev > TOL_MAT * max(1.0, float(np.abs(V).max())):
+            ctx.counterexample(_prep_signature(cls, V),
+                               "Gaussian(V, r) for a %s state on modes %s: decomposed preparation deviates from the native one / from (V, r) by %.2e"
+                               % (cls, targets, dev), data)
+
+
+# ---- graph embeddings ----
+def check_graph(data):
+    from thewalrus.quantum import Amat
+    A = mat_of(data["A"])
+    nbar = data["nbar"]
+    if data["kind"] == "graph":
+        n = len(A)
+        prog = sf.Program(n)
+        with prog.context as q:
+            ops.GraphEmbed(A, mean_photon_per_mode=nbar) | tuple(q)
+        full = A
+    else:
+        n = 2 * len(A)
+        prog = sf.Program(n)
+        with prog.context as q:
+            ops.BipartiteGraphEmbed(A, mean_photon_per_mode=nbar, edges=True) | tuple(q)
+        z = np.zeros_like(A)
+        full = np.block([[z, A], [A.T, z]])
+    st = sf.Engine("gaussian").run(prog).state
+    cov = st.cov()
+    Am = Amat(cov, hbar=sf.hbar)[:n, :n]
+    # the state's A matrix must be a positive multiple of the adjacency matrix, with the requested mean photon number
+    # (thewalrus' convention makes the state's A the complex conjugate of the embedded matrix; |Haf|^2 is the same)
+    best = None
+    for target in (full, np.conj(full)):
+        k = np.vdot(target, Am) / np.vdot(target, target)
+        dev_a = float(np.abs(Am - k * target).max())
+        bad_scale = 0.0 if (abs(k.imag) < 1e-7 and k.real > 0) else 1.0
+        cand = max(dev_a, bad_scale)
+        best = cand if best is None else min(best, cand)
+    mean_n = float((np.trace(cov) / sf.hbar - n) / 2 / n)
+    return max(best, abs(mean_n - nbar), float(np.abs(st.means()).max()))
+
+
+def search_graph(ctx, count):
+    rng = ctx.rng
+    for _ in range(count):
+        kind = rng.choice(["graph", "bipartite"])
+        n = rng.randint(2, 4)
+        cls = rng.choice(["real", "complex", "01", "sparse"])
+        M = np.array([[rng.uniform(-1, 1) for _ in range(n)] for _ in range(n)], dtype=complex)
+        if cls == "complex":
+            M = M + 1j * np.array([[rng.uniform(-1, 1) for _ in range(n)] for _ in range(n)])
+        if cls == "01":
+            M = np.array([[float(rng.random() < 0.6) for _ in range(n)] for _ in range(n)], dtype=complex)
+        if cls == "sparse":
+            M = M * np.array([[float(rng.random() < 0.5) for _ in range(n)] for _ in range(n)])
+        if kind == "graph":
+            M = M + M.T
+            if cls == "01":
+                M = (np.abs(M) > 0).astype(complex)
+                np.fill_diagonal(M, 0)
+        if np.linalg.matrix_rank(M) == 0 or np.allclose(M, np.identity(n)):
+            continue
+        data = {"check": "graph", "kind": kind, "class": cls, "A": mat_json(M), "nbar": rng.choice([0.5, 1.0, 0.2])}
+        ctx.case({"check": "graph", "kind": kind, "class": cls, "n": n}, nontrivial=(cls != "real"), bucket="graph:%s:%s" % (kind, cls))
+        try:
+            dev = check_graph(data)
+        except Exception as e:
+            ctx.counterexample("graph-embed:%s:raises:%s" % (kind, type(e).__name__), "%s embedding of a %s matrix raised %r" % (kind, cls, e), data)
+            continue
+        if dev > 1e-5:
+            ctx.counterexample("graph-embed:%s:%s" % (kind, cls),
+                               "%s embedding of a %s %dx%d matrix: state's A matrix / mean photon number deviates by %.2e" % (kind, cls, n, n, dev), data)
+
+
+# ---- DisplacedSqueezed._decompose against the native preparation ----
+def check_dsq(data):
+    p = data["params"]
+    res = []
+    for native in (True, False):
+        prog = sf.Program(2)
+        with prog.context as q:
+            ops.Sgate(0.4) | q[0]
+            ops.BSgate(0.5, 0.2) | (q[0], q[1])
+            if native:
+                ops.DisplacedSqueezed(*p) | q[data["mode"]]
+            else:
+                for c in ops.DisplacedSqueezed(*p)._decompose([q[data["mode"]]]):
+                    c.op | tuple(c.reg) if isinstance(c.reg, (list, tuple)) else c.op | c.reg
+        st = sf.Engine("gaussian").run(prog).state
+        res.append((np.array(st.means()), np.array(st.cov())))
+    return float(max(np.abs(res[0][0] - res[1][0]).max(), np.abs(res[0][1] - res[1][1]).max()))
+
+
+def search_dsq(ctx, count):
+    rng = ctx.rng
+    for _ in range(count):
+        p = [rng.choice([0.0, 0.5, 1.0]), rng.choice(ANGLE_POOL), rng.choice(HYP_POOL), rng.choice(ANGLE_POOL)]
+        data = {"check": "dsq", "params": p, "mode": rng.randint(0, 1)}
+        ctx.case(data, nontrivial=(data["mode"] == 1 or p[2] < 0), bucket="displaced-squeezed")
+        dev = check_dsq(data)
+        if dev > TOL:
+            ctx.counterexample("decomp:DisplacedSqueezed", "DisplacedSqueezed%s: decomposition differs from the native preparation by %.2e" % (p, dev), data)
+
+
+# ---- whole programs on different compile targets / backends ----
+def _moments(spec, backend, pair, **bo):
+    prog = sf.Program(spec["n"])
+    with prog.context as q:
+        for i in range(spec["n"]):
+            ops.Coherent(0.2 + 0.1 * i, 0.3 * i) | q[i]
+        for name, params, w, dag in spec["cmds"]:
+            make_op(name, params, dag) | tuple(q[pair[i]] for i in w)
+    st = sf.Engine(backend, backend_options=bo).run(prog).state
+    n = spec["n"]
+    if backend == "gaussian":
+        return np.array(st.means()), np.array(st.cov())
+    if backend == "bosonic":
+        idx = list(range(0, 2 * n, 2)) + list(range(1, 2 * n, 2))
+        return np.real(np.array(st.means()[0]))[idx], np.real(np.array(st.covs()[0]))[np.ix_(idx, idx)]
+    mu = np.array([st.quad_expectation(i, 0)[0] for i in range(n)] + [st.quad_expectation(i, np.pi / 2)[0] for i in range(n)])
+    var = np.array([st.quad_expectation(i, 0)[1] for i in range(n)] + [st.quad_expectation(i, np.pi / 2)[1] for i in range(n)])
+    return mu, var
+
+
+def check_targets(data):
+    spec, pair = data["spec"], data["pair"]
+    g = _moments(spec, "gaussian", pair)
+    if data["other"] == "bosonic":
+        b = _moments(spec, "bosonic", pair)
+        return float(max(np.abs(g[0] - b[0]).max(), np.abs(g[1] - b[1]).max()))
+    f = _moments(spec, "fock", pair, cutoff_dim=data.get("cutoff", 12))
+    return float(max(np.abs(g[0] - f[0]).max(), np.abs(np.diag(g[1]) - f[1]).max()))
+
+
+def search_targets(ctx, count_b, count_f):
+    rng = ctx.rng
+    for i in range(count_b + count_f):
+        other = "bosonic" if i < count_b else "fock"
+        ncmd = rng.randint(1, 4)
+        n = 2 if other == "fock" else rng.randint(2, 3)
+        pair = rng.sample(range(n), 2)
+        cmds = []
+        for _ in range(ncmd):
+            pool = [g for g in DECOMPOSABLE + PRIMS if not (other == "bosonic" and g == "sMZgate")]
+            name = rng.choice(pool)
+            params = draw_params(rng, name)
+            if other == "fock":   # keep the truncated simulation accurate
+                params = [max(-0.25, min(0.25, p)) if k in "rh" else p for k, p in zip(PKINDS[name], params)]
+            cmds.append([name, params, rng.sample([0, 1], NMODES[name]), bool(rng.random() < 0.35)])
+        data = {"check": "targets", "other": other, "spec": {"n": n, "cmds": cmds}, "pair": pair, "cutoff": 14}
+        mz = [c for c in cmds if c[0] == "MZgate"]
+        ctx.case(data, nontrivial=(any(c[3] for c in cmds) or pair != [0, 1]), bucket="targets:gaussian-vs-" + other)
+        try:
+            dev = check_targets(data)
+        except Exception as e:
+            ctx.counterexample("targets:%s:raises:%s" % (other, type(e).__name__), "program %s raised %r on the %s backend" % (cmds, e, other), data)
+            continue
+        tol = TOL if other == "bosonic" else 2e-3
+        if dev > tol:
+            sig = "targets:gaussian-vs-" + other
+            if other == "fock" and mz:
+                # attribute to the MZgate conventions when removing the offending MZgates restores agreement
+                if any(c[1][0] == 0 for c in mz):
+                    sig = "apply:MZgate-p0-zero-skipped"
+                elif any(c[3] for c in mz):
+                    sig = "apply:MZgate-dagger-negates-phi_in"
+                d2 = copy.deepcopy(data)
+                d2["spec"]["cmds"] = [c for c in cmds if not (c[0] == "MZgate" and (c[1][0] == 0 or c[3]))]
+                if check_targets(d2) > tol:
+                    sig = "targets:gaussian-vs-fock"
+            ctx.counterexample(sig, "program %s on modes %s: gaussian and %s backends differ by %.2e" % (cmds, pair, other, dev), data)
+
+
+def replay_corpus(ctx):
+    """Known / minimised past failures first: each corpus input is re-evaluated on the implementation."""
+    import glob
+    import json
+    import os
+    for path in sorted(glob.glob(os.path.join(coq.VERIF, "corpus", "C02-*.json"))):
+        body = json.load(open(path))
+        d = body["data"]
+        ctx.case({"check": "corpus", "file": os.path.basename(path)}, nontrivial=True, bucket="corpus")
+        try:
+            still = replay(ctx, body, quiet=True)
+        except Exception as e:  # a corpus input must stay runnable
+            ctx.obligation("corpus:" + os.path.basename(path), False, repr(e))
+            continue
+        if still:
+            ctx.counterexample(body["signature"], body["what"], d)
+
+
+def search(ctx):
+    replay_corpus(ctx)
+    search_interferometers(ctx, ctx.budget(70, 900))
+    search_gaussian_prep(ctx, ctx.budget(40, 500))
+    search_gtransform(ctx, ctx.budget(25, 300))
+    search_graph(ctx, ctx.budget(16, 200))
+    search_ggate(ctx, ctx.budget(10, 60))
+    search_dsq(ctx, ctx.budget(10, 100))
+    search_native(ctx, ctx.budget(14, 120))
+    search_targets(ctx, ctx.budget(25, 400), ctx.budget(8, 80))
+
+
+CHECKS = {
+    "interferometer": (check_interferometer, TOL_MAT), "native": (check_native, TOL_FOCK), "ggate": (check_ggate, TOL),
+    "gtransform": (check_gtransform, TOL_MAT), "gaussian-prep": (check_gaussian_prep, TOL_MAT), "graph": (check_graph, 1e-5),
+    "dsq": (check_dsq, TOL),
+}
+
+
+def replay(ctx, data, quiet=False):
+    say = (lambda *a: None) if quiet else print
+    d = data["data"]
+    kind = d.get("check")
+    if kind in CHECKS:
+        fn, tol = CHECKS[kind]
+        try:
+            dev = fn(d)
+        except Exception as e:
+            say("raised:", repr(e))
+            return True
+        say("deviation %.3e (tolerance %.1e)" % (dev, tol))
+        return dev > tol
+    if kind == "targets":
+        dev = check_targets(d)
+        tol = TOL if d["other"] == "bosonic" else 2e-3
+        say("deviation between gaussian and %s backends: %.3e (tolerance %.1e)" % (d["other"], dev, tol))
+        return dev > tol
+    if kind == "gate":
+        c = d["case"]
+        ok, vals, raw = ctx.coq_eval("replay_gate", HEADER + "Eval vm_compute in run_doc S2H IS2H RT %s.\n"
+                                     % c_cmd(c["gate"], c["params"], list(range(NMODES[c["gate"]])), c["dag"]))
+        dev = _gate_predicate(c, vals[0])
+        say("deviation of the executed decomposition from the documented transformation: %.3e" % dev)
+        return dev > TOL
+    if kind == "compile":
+        c = d["case"]
+        ok, vals, raw = ctx.coq_eval("replay_compile", HEADER + "Eval vm_compute in run_docs S2H IS2H RT %s.\n"
+                                     % coq.coq_list([c_cmd(*x) for x in c["cmds"]]))
+        S, dd = run_cmds_gaussian(c["n"], [[nm, ps, [c["pair"][i] for i in w], dg] for nm, ps, w, dg in c["cmds"]])
+        A, dv = split20(vals[0])
+        Se, de = embed(c["n"], c["pair"], A, dv)
+        dev = float(max(np.abs(S - Se).max(), np.abs(dd - de).max()))
+        say("deviation of the Gaussian-simulator result from the documented transformation: %.3e" % dev)
+        return dev > TOL * max(1.0, float(np.abs(Se).max()))
+    say("unknown replay kind", kind)
+    return False
